@@ -33,13 +33,18 @@ class Ctx:
                         2: cut(np.zeros((4, 2))),
                         3: cut(np.array([[3.0, 0.0], [0.0, 2.0], [6.0, 1.0], [1.0, 1.0]]))}
         self.lifetimes = {
-            "FixedLifetime": (flodym.FixedLifetime, {1: dict(mean=2.5), 2: dict(mean=lab([4.0, 6.0]))}),
-            "StepLifetime": (StepLifetime, {1: dict(period=2.0), 2: dict(period=lab([2.5, 4.0]))}),
-            "NormalLifetime": (flodym.NormalLifetime, {1: dict(mean=4.0, std=1.5), 2: dict(mean=lab([7.0, 5.0]), std=2.0)}),
-            "FoldedNormalLifetime": (flodym.FoldedNormalLifetime, {1: dict(mean=4.0, std=2.5), 2: dict(mean=2.0, std=1.0)}),
-            "LogNormalLifetime": (flodym.LogNormalLifetime, {1: dict(mean=5.0, std=2.0), 2: dict(mean=3.0, std=lab([3.0, 1.0]))}),
+            "FixedLifetime": (flodym.FixedLifetime, {1: dict(mean=2.5), 2: dict(mean=lab([4.0, 6.0])), 3: dict(mean=5.5)}),
+            "StepLifetime": (StepLifetime, {1: dict(period=2.0), 2: dict(period=lab([2.5, 4.0])), 3: dict(period=3.0)}),
+            # parameter set 2 differs from set 1 in the FIRST parameter only, set 3 in both
+            "NormalLifetime": (flodym.NormalLifetime, {1: dict(mean=4.0, std=1.5), 2: dict(mean=lab([7.0, 5.0]), std=1.5),
+                                                       3: dict(mean=6.0, std=2.5)}),
+            "FoldedNormalLifetime": (flodym.FoldedNormalLifetime, {1: dict(mean=4.0, std=2.5), 2: dict(mean=2.0, std=2.5),
+                                                                   3: dict(mean=3.0, std=lab([1.0, 2.0]))}),
+            "LogNormalLifetime": (flodym.LogNormalLifetime, {1: dict(mean=5.0, std=2.0), 2: dict(mean=3.0, std=2.0),
+                                                             3: dict(mean=4.0, std=lab([3.0, 1.0]))}),
             "WeibullLifetime": (flodym.WeibullLifetime, {1: dict(weibull_shape=2.0, weibull_scale=5.0),
-                                                         2: dict(weibull_shape=1.2, weibull_scale=lab([3.0, 8.0]))}),
+                                                         2: dict(weibull_shape=1.2, weibull_scale=5.0),
+                                                         3: dict(weibull_shape=1.5, weibull_scale=lab([3.0, 8.0]))}),
         }
 
     def driver_values(self, cls_name, d):
@@ -134,9 +139,10 @@ def run_history(vec):
                     st.lifetime_model.set_prms(**prms[arg])
                 elif op == "read_sf":
                     sf = np.array(st.lifetime_model.sf)
+                    pdf = np.array(st.lifetime_model.pdf)       # reading the outflow table too (both are cached lazily)
                     ref = lcls(dims=DIMS, time_letter="t", **prms[stp["prm"]])
-                    if not same(sf, ref.sf):
-                        problems.append(where + "{C17} the survival table read does not belong to the current parameters")
+                    if not same(sf, ref.sf) or not same(pdf, ref.pdf):
+                        problems.append(where + "{C17} the survival / outflow table read does not belong to the current parameters")
                 elif op == "compute":
                     st.compute()
                 elif op == "system_run":
